@@ -370,6 +370,24 @@ def check_c07(res):
             else:
                 if out[3] == "1" and out[4] == "1" and out[5] != "1":
                     res.violations.append(Violation("equality-not-transitive", ln, str(m_), cfg))
+        # deeply nested values: two reads of the same document must be equal with equal hashes at every depth
+        dl, dm = [], []
+        for (o, c_) in ((b"[", b"]"), (b"(", b")"), (b"{:k ", b"}"), (b"#{", b"}"), (b"#t ", b"")):
+            for d in (10, 50, 98, 99, 100, 101, 150, 400):
+                doc = o * d + b"1" + c_ * d
+                dl.append("script P0=%s;P1=%s;E0,1;E1,0;H0;H1;E0,1" % (hexs(doc), hexs(doc)))
+                dm.append((o, d))
+        impl, model = correspond(res, cfg, "san", dl, label="deep-values")
+        for (o, d), ln, a in zip(dm, dl, impl):
+            res.nontrivial.add((cfg, "deep", o, d))
+            res.count("deep-value")
+            out = a.split(";")
+            if is_crash(a):
+                res.violations.append(Violation("equality-crash", ln[:3000], a[:200], cfg))
+            elif out[:2] == ["ok", "ok"] and (out[2:4] != ["1", "1"] or out[4] != out[5] or out[6] != "1"):
+                res.violations.append(Violation("equal-false-beyond-depth-cap" if d >= 100 else "copies-not-equal", ln[:3000],
+                                                "two reads of %r nested %d deep: equal %s/%s, hashes %s %s, after hashing %s"
+                                                % (o, d, out[2], out[3], out[4], out[5], out[6]), cfg))
         res.sample({"cfg": cfg, "script": scripts[1][:300]})
 
 
@@ -384,6 +402,31 @@ def c08_elements(rnd, cfg, kind, count):
         return [('"s%d"' % i).encode() for i in range(count)]
     if kind == "vec":
         return [("[%d %d]" % (i, i + 1)).encode() for i in range(count)]
+    if kind == "wideint":
+        # magnitudes far apart (differences beyond 2^31 / 2^32 / 2^63): timestamps, powers of two, the extremes
+        base = [1700000000000 + 1500000000 * i for i in range(count)]
+        extra = [2 ** 31 * (i + 1) * (-1) ** i for i in range(40)] + [2 ** 63 - 1, -2 ** 63, 2 ** 62, -2 ** 62, 2 ** 32, -2 ** 32, 0, -1]
+        pool_ = list(dict.fromkeys(extra + base))
+        rnd.shuffle(pool_)
+        return [str(v).encode() for v in pool_[:count]]
+    if kind == "widefloat":
+        vals = [(-1) ** i * (1.5 + i) * 10.0 ** ((i * 7) % 300 - 150) for i in range(count)]
+        return [repr(v).encode() for v in vals]
+    if kind == "longstr":
+        # long common prefixes, lengths differing by small and by huge amounts
+        out = []
+        for i in range(count):
+            n = [3, 40, 300, 5000][i % 4] if i < 8 else 20 + i % 7
+            out.append(('"' + "p" * n + "%d" % i + '"').encode())
+        return out
+    if kind == "scalars":
+        out = []
+        for i in range(count):
+            out.append(rnd.choice([str(i * 3 - count).encode(), (":m%d" % i).encode(), (":ns%d/m" % (i % 5)).encode() + b"%d" % i,
+                                   ('"x%d"' % i).encode(), ("sym%d" % i).encode(), ("%d.25" % (i - count // 2)).encode(),
+                                   str((-1) ** i * (2 ** 40) * (i + 1)).encode()]))
+        out[:3] = [b"nil", b"true", b"false"][:min(3, count)]
+        return out
     if kind == "mixed":
         out = []
         for i in range(count):
@@ -418,12 +461,13 @@ def check_c08(res):
                 "composites) at positions (first,last),(adjacent),(random) x shuffles; oracle: rejected with DUPLICATE_* "
                 "iff a twin pair was inserted (twins are equal by the equality property), and the verdict is the same "
                 "for every permutation. non-trivial = distinct (count, flavour, twin, positions)")
-    counts = [2, 3, 15, 16, 17, 18, 100, 999, 1000, 1001, 1002, 1600] if thorough else [2, 3, 16, 17, 18, 1000, 1001, 1002]
+    counts = [2, 3, 15, 16, 17, 18, 100, 999, 1000, 1001, 1002, 1600] if thorough else [2, 3, 16, 17, 18, 1000, 1001]
     for cfg in CFGS:
         lines, meta = [], []
         twins = c08_twins(cfg)
         for count in counts:
-            kinds_ = ["int", "kw", "str", "vec", "mixed"] if thorough else (["int", "mixed", "vec"] if count < 100 else ["mixed"])
+            kinds_ = ["int", "kw", "str", "vec", "mixed", "wideint", "widefloat", "longstr", "scalars"] if thorough else \
+                (["int", "mixed", "vec", "wideint", "scalars", "longstr"] if count < 100 else ["mixed", "wideint", "scalars"])
             for kind in kinds_:
                 els = c08_elements(rnd, cfg, kind, count)
                 # no duplicates: must be accepted, for 2 shuffles
@@ -433,6 +477,16 @@ def check_c08(res):
                     meta.append(("set", count, kind, None))
                     lines.append(docline(b"{" + b" ".join(e + b" 0" for e in els) + b"}"))
                     meta.append(("map", count, kind, None))
+                # a second copy of one of the elements themselves, at three position pairs x shuffles
+                for _ in range(6 if (thorough or count < 100) else 3):
+                    seq = list(els[: count - 1])
+                    rnd.shuffle(seq)
+                    e = rnd.choice(seq)
+                    seq.insert(rnd.randrange(0, len(seq) + 1), e)
+                    lines.append(docline(b"#{" + b" ".join(seq) + b"}"))
+                    meta.append(("set", count, kind, (e, e)))
+                    lines.append(docline(b"{" + b" ".join(x + b" 0" for x in seq) + b"}"))
+                    meta.append(("map", count, kind, (e, e)))
                 # with one equal pair
                 for (a, b) in (twins if (thorough or count < 100) else rnd.sample(twins, 2)):
                     body = [e for e in els[: count - 2]]
@@ -449,6 +503,13 @@ def check_c08(res):
                         if rnd.random() < 0.5:
                             lines.append(docline(b"{" + b" ".join(e + b" 0" for e in seq) + b"}"))
                             meta.append(("map", count, kind, (a, b)))
+        for d in (50, 99, 100, 150):
+            for (o, c_) in ((b"[", b"]"), (b"#{", b"}")):
+                deep = o * d + b"1" + c_ * d
+                lines.append(docline(b"#{" + deep + b" " + deep + b"}"))
+                meta.append(("set", 2, "deep%d" % d, (deep[:8], deep[:8])))
+                lines.append(docline(b"{" + deep + b" 1 " + deep + b" 2}"))
+                meta.append(("map", 2, "deep%d" % d, (deep[:8], deep[:8])))
         # are the twins really equal / the plain elements really distinct per the implementation's equality?
         impl, model = correspond(res, cfg, "san", lines, label="duplicates", jobs=12)
         for m_, ln, a in zip(meta, lines, impl):
@@ -459,7 +520,10 @@ def check_c08(res):
                 res.violations.append(Violation("duplicate-check-crash", ln[:200], a, cfg))
                 continue
             rejected = ("DUPLICATE_ELEMENT" in a) or ("DUPLICATE_KEY" in a)
-            if twin and not rejected:
+            if twin and not rejected and kind.startswith("deep") and int(kind[4:]) >= 100:
+                res.violations.append(Violation("duplicate-beyond-depth-cap-accepted", ln[:3000],
+                                                "%s holding two copies of a value nested %s deep accepted" % (coll, kind[4:]), cfg))
+            elif twin and not rejected:
                 res.violations.append(Violation("duplicate-accepted", ln[:100000],
                                                 "%s of %d %s elements containing %r and %r accepted: %s" % (coll, count, kind, twin[0], twin[1], a[:80]), cfg))
             if not twin and not a.startswith("OK "):
@@ -480,13 +544,18 @@ def check_c09(res):
     for cfg in CFGS:
         clj = cfg[0] == "1"
         scripts, meta = [], []
-        for size in ([0, 1, 2, 5, 17, 40] + ([1001, 1500] if thorough else [1001])):
+        all_kinds = [":k%d", ":n%d/k", "s%d", '"str%d"', '"e\\\\n%d"', "%d", "[%d]", "(%d)", "{:a %d}", "#{%d}", "%d.5",
+                     "#t %d", "%dN", "%d.0M"]
+        scalar_kinds = [":k%d", ":n%d/k", "s%d", '"str%d"', "%d", "%d.5"]
+        profiles = [("mixed", all_kinds, [0, 1, 2, 5, 16, 17, 40] + ([1001, 1500] if thorough else [1001])),
+                    ("scalars", scalar_kinds, [16, 17, 40, 1000, 1001] + ([300, 999] if thorough else [])),
+                    ("keywords", [":k%d"], [17, 1000, 1001] if thorough else [17, 200]),
+                    ("strings", ['"str%d"'], [17, 1000] if thorough else [17, 200]),
+                    ("ints", ["%d"], [17, 1000] if thorough else [17, 200])]
+        for pname, kinds, size in [(pn, ks, sz) for pn, ks, szs in profiles for sz in szs]:
             keys = []
             for i in range(size):
-                k = rnd.choice([":k%d" % i, ":n%d/k" % i, "s%d" % i, '"str%d"' % i, '"e\\\\n%d"' % i, "%d" % i, "[%d]" % i,
-                                "(%d)" % i, "{:a %d}" % i, "#{%d}" % i, "%d.5" % i, "\\u%04x" % (0x200 + i), "#t %d" % i,
-                                "%dN" % i, "%d.0M" % i])
-                keys.append(k.encode())
+                keys.append((rnd.choice(kinds) % i).encode())
             mdoc = b"{" + b" ".join(k + (" %d" % i).encode() for i, k in enumerate(keys)) + b"}"
             sdoc = b"#{" + b" ".join(keys) + b"}"
             kdoc = b"[" + b" ".join(keys) + b" :absent [99999] \"zz\" 1e99]"
@@ -504,7 +573,7 @@ def check_c09(res):
                     ops.append("S1,2.%d" % j)
                     res.count("probe:absent")
                 scripts.append("script P0=%s;P1=%s;P2=%s;%s%s" % (hexs(mdoc), hexs(sdoc), hexs(kdoc), pre, ";".join(ops)))
-                meta.append(("general", size, list(idxs), len(pre.split(";")) - 1))
+                meta.append(("general", size, list(idxs), len(pre.split(";")) - 1, pname))
             # helpers
             hops, hexp = [], []
             for i in idxs:
@@ -521,16 +590,17 @@ def check_c09(res):
                     hops.append("T0,%s" % k[1:-1].replace("\\\\n", "\\n").encode().hex()); hexp.append(("esc", i))
             if hops:
                 scripts.append("script P0=%s;%s" % (hexs(mdoc), ";".join(hops)))
-                meta.append(("helpers", size, hexp, 0))
+                meta.append(("helpers", size, hexp, 0, pname))
         impl, model = correspond(res, cfg, "san", scripts, label="lookup-scripts", jobs=12)
         for m_, ln, a in zip(meta, scripts, impl):
-            res.nontrivial.add((cfg, m_[0], m_[1], m_[3]))
+            res.nontrivial.add((cfg, m_[0], m_[1], m_[3], m_[4]))
+            res.count("map:%s:%d" % (m_[4], m_[1]))
             if is_crash(a):
                 res.violations.append(Violation("lookup-crash", ln[:3000], a, cfg))
                 continue
             out = a.split(";")
             if m_[0] == "general":
-                _, size, idxs, npre = m_
+                _, size, idxs, npre, _pn = m_
                 body = out[3 + npre:]
                 pos = 0
                 for i in idxs:
@@ -545,7 +615,7 @@ def check_c09(res):
                     if l != "none" or k != "0" or s != "0":
                         res.violations.append(Violation("absent-key-found", ln[:3000], "lookup %s contains %s set %s" % (l, k, s), cfg))
             else:
-                _, size, hexp, _ = m_
+                _, size, hexp, _, _pn = m_
                 for want, got in zip(hexp, out[1:]):
                     if isinstance(want, tuple):
                         if got != "idx%d" % want[1]:
@@ -815,6 +885,11 @@ def c10_predictable(rnd, cfg, n):
                 out.append((tok, {cls}))
     if not clj:
         out += [(b"01", {"INVALID_NUMBER"}), (b"-007", {"INVALID_NUMBER"}), (b"[00]", {"INVALID_NUMBER"})]
+    # a number token glued to a byte that neither continues nor terminates a number
+    for num in (b"1", b"42", b"3.5", b"-7N", b"1e5", b"2.5M", b"0"):
+        for glue in (b"\\a", b"\\newline", b"\x7f", b"'", b"~", b"@", b"`", b"\x01", b"\x80", b"\xc3\xa9", b"|", b"$", b"!"):
+            out.append((num + glue, {"INVALID_NUMBER"}))
+            out.append((b"[" + num + glue + b"]", {"INVALID_NUMBER"}))
     return out
 
 
@@ -878,6 +953,40 @@ def check_c10(res):
 
 
 # =============================================================================== C01
+def c01_boundary_lengths():
+    sizes = set([16, 32, 64, 256, 1024, 4096])
+    for f in sorted(os.listdir(os.path.join(REPO, "src"))):
+        if not f.endswith((".c", ".h")):
+            continue
+        txt = open(os.path.join(REPO, "src", f), errors="replace").read()
+        for m in re.finditer(r"\b\w+\s+\w+\[(\d+)\]\s*;", txt):
+            sizes.add(int(m.group(1)))
+        for m in re.finditer(r"#define\s+\w*(?:SIZE|LEN|MAX|THRESHOLD|CAP)\w*\s+\(?(\d+)\)?", txt):
+            sizes.add(int(m.group(1)))
+    out = set()
+    for n in sizes:
+        if 8 <= n <= 20000:
+            out.update(range(n - 2, n + 3))
+    return sorted(out)
+
+
+def c01_long_tokens(L, cfg):
+    """tokens of exactly L bytes of every family that is copied or scanned through a bounded buffer"""
+    L = max(L, 4)
+    out = [b"1." + b"7" * (L - 2),                         # float, beyond the fast path
+           b"-" + b"1" * (L - 6) + b"e-300",               # float with exponent
+           b"9" * L,                                       # integer -> big integer
+           b"1." + b"3" * (L - 3) + b"M",                  # big decimal
+           b"s" * L, b":" + b"k" * (L - 1), b"n/" + b"s" * (L - 2),
+           b'"' + b"a" * (L - 4) + b'\\n"',                  # string with an escape (decoded lazily)
+           b"#" + b"t" * (L - 3) + b" 1"]
+    if cfg[0] == "1":
+        out += [b"0x" + b"f" * (L - 2), b"1" * (L // 2) + b"/" + b"3" * (L - L // 2 - 1)]
+    if cfg[1] == "1":
+        out += [b"1_" * ((L - 3) // 2) + b"1.5", b"1_" * ((L - 1) // 2) + b"1"]
+    return out
+
+
 @prop("C01")
 def check_c01(res):
     rnd = random.Random(res.seed)
@@ -904,6 +1013,11 @@ def check_c01(res):
                 b"1234567", b"12345678", b"123456789012345678", b"0." + b"1" * 20, b"a" * 15, b"a" * 16, b"a" * 17,
                 b" " * 15 + b"x", b" " * 16, b" " * 17, b";" + b"c" * 15, b";" + b"c" * 16, b'"' + b"a" * 15, b'"' + b"a" * 16 + b"\\"]
         docs += toks
+        # tokens whose byte length sits around every fixed-size buffer / threshold constant the source declares
+        # (read from /repo at run time) and around powers of two
+        for L in c01_boundary_lengths():
+            for fam in c01_long_tokens(L, cfg):
+                docs.append(fam)
         # all truncations of some documents
         for d in (docs[:40] if thorough else docs[:12]):
             for i in range(1, len(d)):
@@ -1101,10 +1215,15 @@ def check_c13(res):
         cand = [g.form(2) for _ in range(200)]
         okc = runner.run_impl(cfg, "prod", [docline(f) for f in cand])
         pool = [f for f, a in zip(cand, okc) if a.startswith("OK ") and a.endswith("@0-%d calls=0" % len(f))] or [b"1"]
-        base_lines = [docline(d, reg=reg) for d in docs]
+        pool += [b"#foo 42", b"#unknown/tag [1 #x 2]", b"#inst \"2020\"", b"{:a #nope 1}", b"#x #y z"]
+        # every document is read under one of the registry x default-reader-mode settings; trivia must not
+        # change the observation under that same setting (incl. unknown tags inside discarded forms)
+        settings = [(reg, 0), (reg, 1), (reg, 2), ("+", 0), ("+", 1), ("+", 2), ("-", 0), ("-", 2)]
+        dset = [settings[i % len(settings)] for i in range(len(docs))]
+        base_lines = [docline(d, reg=r_, mode=m_) for d, (r_, m_) in zip(docs, dset)]
         base = runner.run_impl(cfg, "san", base_lines)
         lines, meta = [], []
-        for d, a in zip(docs, base):
+        for d, a, (reg_d, mode_d) in zip(docs, base, dset):
             if not a.startswith("OK "):
                 continue
             # insertion points come from a registry-free read (generic tagged values keep all ranges)
@@ -1130,7 +1249,7 @@ def check_c13(res):
                 for _ in range(3 if thorough else 2):
                     t = c13_trivia(rnd, pool)
                     # trivia inserted at a token end needs the token to stay delimited: all trivia starts with a delimiter
-                    lines.append(docline(d[:p] + t + d[p:], reg=reg))
+                    lines.append(docline(d[:p] + t + d[p:], reg=reg_d, mode=mode_d))
                     meta.append((d, p, t, a))
         impl, model = correspond(res, cfg, "san", lines, label="trivia-insertion")
         for (d, p, t, a0), ln, a in zip(meta, lines, impl):
@@ -1150,7 +1269,8 @@ def check_c13(res):
             if rnd.random() < 0.3:
                 t += b"; comment to EOF"
             for eof in (0, 1):
-                tl.append(docline(t, reg=reg, eof=eof))
+                r_, m_ = rnd.choice(settings)
+                tl.append(docline(t, reg=r_, mode=m_, eof=eof))
                 tmeta.append((t, eof))
         impl, model = correspond(res, cfg, "san", tl, label="trivia-only")
         for (t, eof), ln, a in zip(tmeta, tl, impl):
@@ -1909,12 +2029,26 @@ def check_c17(res):
         # (d) threads under the race detector
         tl = []
         small = [d for d in docs if len(d) < 4000]
+        # per-thread documents that go through each duplicate-detection strategy and the lazy accessors
+        def scalar_set(n, seed_):
+            r2 = random.Random(seed_)
+            els = ["%d" % (r2.randrange(-10 ** 9, 10 ** 9) * 7 + i) for i in range(n)]
+            return ("#{" + " ".join(els) + "}").encode()
+        def kw_map(n, seed_):
+            return ("{" + " ".join(":k%d-%d \"v\\n%d\"" % (seed_, i, i) for i in range(n)) + "}").encode()
+        heavy = [scalar_set(n, 100 + j) for j, n in enumerate([17, 40, 300, 600, 1000, 1001, 1500])] + \
+                [kw_map(n, j) for j, n in enumerate([17, 200, 999])] + \
+                [b"#{" + b" ".join(b"[%d]" % i for i in range(300)) + b"}"]
         for _ in range(40 if thorough else 12):
             n = rnd.choice([2, 3, 4, 8, 16])
             k = rnd.choice([1, 1, 2, 3, n])
             ds = [rnd.choice(small) for _ in range(min(k, 16))]
             ds = [d for d in ds if d] or [b"[1 2 3]"]
             tl.append("threads %d %s %s" % (n, ",".join(hexs(d) for d in ds), rnd.choice(regs)))
+        for _ in range(16 if thorough else 6):
+            n = rnd.choice([4, 8, 16])
+            ds = [rnd.choice(heavy) for _ in range(rnd.choice([2, 3, 4, 8]))]
+            tl.append("threads %d %s %s" % (n, ",".join(hexs(d) for d in ds), "-"))
         outs = runner.run_impl(cfg, "tsan", tl, extra_env={"TSAN_OPTIONS": "exitcode=66:halt_on_error=1:report_signal_unsafe=0"})
         res.evaluations += len(tl)
         res.count("threads", len(tl))
@@ -2018,15 +2152,25 @@ def check_c02(res):
             "comment-lines": lambda n: b";c\n" * n + b"1",
             "many-newlines-then-error": lambda n: b"\n" * (3 * n) + b")",
             "nested-sets": lambda n: b"#{" * 60 + b" ".join(b"%d" % i for i in range(n)) + b"}" * 60,
+            # operands that agree in their low / high bits, long shared prefixes: adversarial for hash tables and sorting
+            "wide-set-ints-stride-2^20": lambda n: b"#{" + b" ".join(b"%d" % (i << 20) for i in range(n)) + b"}",
+            "wide-set-ints-stride-2^32": lambda n: b"#{" + b" ".join(b"%d" % (i << 32) for i in range(n)) + b"}",
+            "wide-set-negative-ints": lambda n: b"#{" + b" ".join(b"%d" % (-(i << 12) - 1) for i in range(n)) + b"}",
+            "wide-set-floats-same-mantissa": lambda n: b"#{" + b" ".join(b"1.5e%d" % (i % 600 - 300) + b"%d" % (i // 600) for i in range(n)) + b"}",
+            "wide-set-keywords-shared-prefix": lambda n: b"#{" + b" ".join(b":shared-prefix-shared-prefix/%d" % i for i in range(n)) + b"}",
+            "wide-map-strings-shared-suffix": lambda n: b"{" + b" ".join(b"\"%d-shared-suffix-shared\" 1" % i for i in range(n)) + b"}",
+            "wide-set-chars-and-mixed": lambda n: b"#{" + b" ".join((b"\\u%04x" % (i % 60000)) if i < 60000 else b"%d" % i for i in range(n)) + b"}",
         }
-        sizes = [2000, 8000, 32000] + ([128000] if thorough else [])
+        sizes = [4000, 16000, 64000] + ([128000] if thorough else [])
         for name, mkdoc in shapes.items():
             times = []
             for n in sizes:
                 ln = docline(mkdoc(n))
-                t0 = _t.time()
+                import resource as _rs
+                r0 = _rs.getrusage(_rs.RUSAGE_CHILDREN)
                 a = runner.run_impl(cfg, "prod", [ln], timeout=120)[0]
-                dt = _t.time() - t0
+                r1 = _rs.getrusage(_rs.RUSAGE_CHILDREN)
+                dt = (r1.ru_utime + r1.ru_stime) - (r0.ru_utime + r0.ru_stime)     # CPU time of the harness process
                 res.evaluations += 1
                 res.count("time:%s" % name)
                 times.append((n, len(ln) // 2, dt))
@@ -2034,7 +2178,7 @@ def check_c02(res):
                     res.violations.append(Violation("read-does-not-return-in-time", "doc <%s n=%d>" % (name, n), "%s n=%d: %s" % (name, n, a[:100]), cfg))
             # growth between the two largest sizes must be sub-quadratic: t(4n) <= 8*t(n) + slack
             (n1, l1, t1), (n2, l2, t2) = times[-2], times[-1]
-            if t2 > 8.0 * max(t1, 0.02) + 0.15:
+            if t2 > 7.0 * max(t1, 0.03) + 0.1:
                 res.violations.append(Violation("read-time-grows-quadratically", "doc <%s>" % name,
                                                 "%s: %.2fs at n=%d, %.2fs at n=%d" % (name, t1, n1, t2, n2), cfg))
             res.sample({"cfg": cfg, "shape": name, "times": [(n, round(t, 3)) for n, _, t in times]})
